@@ -187,6 +187,8 @@ class C19(Prop):
         if code is None:
             if obs['invoke'] != 'ok':
                 return 'accepted call does not bind: the returned invocation raises TypeError'
+            if 'given' in case['call'] and any(k == 'PO' for k, d, n in obs['params']):
+                return 'named arguments were accepted for a handler that has positional-only parameters (they are always refused)'
             return None
         if code != -32602:
             return f'refusal with code {code}, expected invalid params (-32602)'
